@@ -5,20 +5,26 @@ PATHS = "src/wal/paths.rs"
 R9_SANITIZE = [
     dict(rule="R9", kind="call", pat=r"key\s*\.chars\(\)\s*\.map", tail=r"\s*\.collect\(\)",
          repl="str_map_chars_sanitize_char(key)", why="chars().map(closure).collect() -> stub over lifted closure"),
-    dict(rule="R9", kind="re", pat=r"(\w+)\.trim_matches\(('[^']+')\)\.is_empty\(\)",
-         repl=r"str_trim_matches_is_empty(&\1, \2)", why="trim_matches(c).is_empty() -> stub"),
-    dict(rule="R9", kind="re", pat=r'format!\(\s*"ns_\{:x\}"\s*,\s*', repl="format_ns_hex(", why='format!("ns_{:x}", v) -> stub'),
+    dict(rule="R9", kind="re", pat=r"\.trim_matches\(('[^']+')\)", repl=r".vx_trim_matches_char(\1)", min=0, why="String::trim_matches(char) -> VxStrTrim stub"),
+    dict(rule="R9", kind="re", pat=r'format!\(\s*"ns_\{:x\}"\s*,\s*', repl="format_ns_hex_checked(", min=0, why='format!("ns_{:x}", v) -> stub'),
+    dict(rule="R9", kind="re", pat=r"\.to_string\(\)", repl=".vx_to_string()", min=0, why="str::to_string -> VxStr::vx_to_string"),
 ]
 R9_PUSH = [
-    dict(rule="R9", kind="re", pat=r"root\.push\(", repl="pathbuf_push(&mut root, ", why="PathBuf::push -> path model stub"),
+    dict(rule="R9", kind="re", pat=r"root\.push\(", repl="pathbuf_push(&mut root, ", min=0, why="PathBuf::push -> path model stub"),
+    dict(rule="R9", kind="re", pat=r"root\.ends_with\(", repl="pathbuf_ends_with(&root, ", min=0, why="PathBuf::ends_with -> path model stub"),
 ]
+# `let x = RECV.filter(|v| BODY);`  ->  match desugaring of Option::filter (closure body lifted verbatim)
+OPT_FILTER = [dict(rule="R8", kind="re", pat=r"let (\w+) = ([^;]*?)\.filter\(\|(\w+)\| ([^;]*)\);", min=0,
+                   repl=r"let \1 = match \2 { Some(\3) => if { let \3 = &\3; \4 } { Some(\3) } else { None }, None => None };",
+                   why="Option::filter(closure) -> match (std semantics of Option::filter)")]
+BUILD = "src/wal/runtime/builder.rs"
 
 UNIT = dict(
     name="c14_paths",
     props=["C14", "C13"],
     implicit_props=["C14"],
     uses=["std::path::PathBuf"],
-    prelude=["strings.rs", "paths.rs"],
+    prelude=["strings.rs", "str_ext.rs", "paths.rs"],
     model=["c14_model.rs"],
     assumptions=[
         "A-STD: std char/string semantics as written in specs/prelude/strings.rs (is_ascii_alphanumeric, trim_matches, format!{:x}, chars().map().collect())",
@@ -35,11 +41,7 @@ UNIT = dict(
              rules=[dict(rule="R8", kind="re", pat=r"for &b in data \{", repl="for i in 0..data.len() { let b = data[i];",
                          why="for &b in slice -> indexed loop")]),
         dict(kind="fn", file=CFG, path="fn sanitize_namespace", rules=R9_SANITIZE,
-             hints=[dict(after="let mut sanitized: String = str_map_chars_sanitize_char(key);",
-                         text="    proof { lemma_mapped_allowed(key@, sanitized@); }"),
-                    dict(after="sanitized = format_ns_hex(checksum64(key.as_bytes()));",
-                         text="        proof { lemma_ns_hex_safe_ex(sanitized@); }"),
-                    dict(before="    sanitized\n}", text="    proof { lemma_allowed_safe(sanitized@); }")],
+             proof_prologue="broadcast use lemma_trim_empty_iff_all, lemma_allowed_safe, lemma_trim_allowed;",
              ensures=[("C14:sanitized_is_safe_component", "safe_component(ret@)"),
                       ("C14:sanitized_all_allowed", "all_allowed(ret@)"),
                       ("C14,C13:sanitize_identity_on_clean_keys",
@@ -57,5 +59,17 @@ UNIT = dict(
              rules=R9_PUSH + [dict(rule="R9", kind="lit", old="std::env::var(", new="env_var(", why="env var -> arbitrary stub")],
              ensures=[("C14,C13:default_root_inside_or_dir",
                        "path_view(&ret.root) == data_dir_view() || (strictly_inside(path_view(&ret.root), data_dir_view()) && path_view(&ret.root).len() == data_dir_view().len() + 1)")]),
+        dict(kind="struct", file="src/wal/runtime/walrus.rs", struct="ReadConsistency", attrs=["#[derive(Clone, Copy)]"]),
+        dict(kind="struct", file=CFG, struct="FsyncSchedule", attrs=["#[derive(Clone, Copy)]"]),
+        dict(kind="struct", file=BUILD, struct="WalrusBuilder"),
+        dict(kind="model", file="c14_builder_model.rs"),
+        dict(kind="fn", file=BUILD, path="impl WalrusBuilder / fn build",
+             sig_rules=[dict(pat=r"std::io::Result<Walrus>", repl="IoResult<WalrusH>")],
+             rules=OPT_FILTER + [
+                 dict(rule="R9", kind="re", pat=r"\.as_deref\(\)", repl=".vx_as_deref()", min=0, why="Option<String>::as_deref -> stub"),
+                 dict(rule="R5", kind="re", pat=r"Walrus::with_paths\(Arc::new\((\w+)\),", repl=r"walrus_with_paths(\1,", why="Walrus::with_paths(Arc::new(p),..) -> stub: the instance lives in p.root"),
+             ],
+             proof_prologue="broadcast use lemma_push_inside;",
+             ensures=[("C14:builder_key_gives_private_dir", "self.key is Some ==> (ret matches Ok(w) ==> strictly_inside(w.root@, builder_base(self)) && w.root@.len() == builder_base(self).len() + 1)")]),
     ],
 )
